@@ -27,3 +27,15 @@ Definition run_repr (tbl : list N) (s rest : str) : obs :=
 (* the lexer on an arbitrary text *)
 Definition run_lex (text : str) : obs :=
   otag "lex" [lex_obs (py_lex_string text)].
+
+(* the table oracle used by the harness satisfies the premise of the theorems whenever the table
+   contains no surrogate (the harness builds it from str.isprintable, which is false for them) *)
+From YP Require Import Comp.PyReprSound.
+Lemma table_printable_surrogates tbl :
+  Forall (fun c => is_surrogate c = false) tbl -> surrogates_unprintable (table_printable tbl).
+Proof.
+  intros H c Hc. unfold table_printable.
+  destruct (existsb (N.eqb c) tbl) eqn:E; [|reflexivity].
+  apply existsb_exists in E. destruct E as [x [Hin Hx]]. apply N.eqb_eq in Hx. subst x.
+  rewrite Forall_forall in H. rewrite (H c Hin) in Hc. discriminate.
+Qed.
